@@ -237,6 +237,7 @@ def build(ctx):
                       z3.BoolVal(r.kind == "raise" and r.value.exc_type == "ValueError"), clause="expand_latt outside [-7,7] raises ValueError", fn=f_from)
     ctx.attempt("space_group.SpaceGroup.from_symmetry_operations/ensures/expand_latt_range", ob_expand_range)
     expand_obligations(ctx)
+    engine_guard(ctx)
 
 
 def expand_obligations(ctx):
@@ -312,3 +313,23 @@ def expand_obligations(ctx):
                 ctx.prove(ident, r.pc, conj(goals), clause=f"lattice type {lt}: each input operation (identity appended if absent) followed by its centring translates"
                           + (", then the inverse of each of those" if lt > 0 else "") + "; rotations unchanged / negated, translations modulo 1", replay=replay, fn=f_exp)
         ctx.attempt(f"symmetry_operation.expanded_symmetry_list/ensures/contents/latt{lt}", ob, replay=replay, fn=f_exp)
+
+
+def engine_guard(ctx):
+    """CPython cross-check of the symbolic executor on the list expansion / reduction (concrete operations, one path, same operations in the same order)."""
+    from pyvc.api import Obj, farr, source as _src
+    from pyvc.crosscheck import crosscheck
+    import chmpy.crystal.symmetry_operation as so
+    I = ctx.interp()
+    somod = _src.load_module(SO)
+    SOcls = I.class_of(somod, "SymmetryOperation")
+
+    def eng(op):
+        return Obj(SOcls, {"rotation": farr(np.asarray(op.rotation, dtype=float).tolist()), "translation": farr(np.asarray(op.translation, dtype=float).tolist())})
+    ops = [so.SymmetryOperation.from_string_code(s_) for s_ in ("x,y,z", "-x,y+1/2,-z", "-y,x-y,z+1/3", "x,-y,z+1/2")]
+    cases = [(ops[:2], 1), (ops[:2], -1), (ops[1:3], 2), (ops[:1], 3), (ops[1:2], -4), (ops[:3], 7), ([ops[1], ops[3]], 5)]
+    crosscheck(ctx, I, ctx.fn(SO, "expanded_symmetry_list"), lambda o, lt: so.expanded_symmetry_list(list(o), lt), cases,
+               to_engine=lambda a: ([eng(o_) for o_ in a[0]], a[1]), fields=["rotation", "translation"])
+    fulls = [(so.expanded_symmetry_list(list(o), lt), lt) for o, lt in cases[:5]]
+    crosscheck(ctx, I, ctx.fn(SO, "reduced_symmetry_list"), lambda o, lt: so.reduced_symmetry_list(list(o), lt), fulls,
+               to_engine=lambda a: ([eng(o_) for o_ in a[0]], a[1]), fields=["rotation", "translation"])
